@@ -36,7 +36,9 @@ type SyncOpt struct {
 	Capacity int
 	Recv     fsutil.ReceiveOpt
 	SendProg bool
-	Setup    func(p *Pair) // install hooks before start
+	// SendProgFn, if set, is handed to Send as it is (no locking added)
+	SendProgFn func(int, bool)
+	Setup      func(p *Pair) // install hooks before start
 	// SetupCalls receives functions that cancel the context handed to Send /
 	// Receive (not the stream\'s own context: cancelling a call must not by itself
 	// tear the stream down).
@@ -78,6 +80,9 @@ func RunSync(src fsutil.FS, dest string, o SyncOpt) *SyncResult {
 			res.Progress = append(res.Progress, ProgressCall{n, last})
 			pmu.Unlock()
 		}
+	}
+	if o.SendProgFn != nil {
+		prog = o.SendProgFn
 	}
 	sendCtx, cancelSend := context.WithCancel(parent)
 	recvCtx, cancelRecv := context.WithCancel(parent)
